@@ -162,4 +162,22 @@ theorem decoder_literal (st : DecState) (h : Props.DecReach st) (ix : RFC.Indexi
   rw [ha]
   simp only [litOk, hproj, hn, hv, hnv]
 
+/-- **C16 on the source, as far as a fuel argument can say it**: the translated `while` loops (the block loop of `decode`, the
+continuation loops of `decode_integer`, the eviction loop of `_shrink`) take one unit of fuel per iteration and fail with
+`nonTermination` when it runs out. With `3·|block| + |table| + 4` units no loop of a call runs out — each loop of one
+`decode` call iterates at most linearly often in the block (plus the table's entries for evictions). (This bounds every
+loop separately; the total work, linear as well, is what the cost model of `Props.C16` and the cost probe establish.) -/
+theorem linear_fuel_suffices (st : DecState) (hinv : Inv st.table) (hlim : st.listLimit < 10 ^ 4300) (data : Bytes) (raw : Bool)
+    (fuel : Nat) (hf : fuel ≥ 3 * data.length + st.table.entries.length + 4) :
+    dropS (Src.Decoder.decode fuel (absD st) data raw) ≠ .error .nonTermination := by
+  have ha := SrcTie.decode_agree st data raw hinv hlim fuel hf
+  obtain ⟨hne, _⟩ := Props.C04.no_escape_inv st hinv data raw
+  unfold Cur.decode at hne
+  generalize hm : Impl.decodeApi Gen.intCap true st data raw = m at ha hne
+  obtain ⟨r, st'⟩ := m
+  cases r with
+  | ok hs => simp only [AgreeRun] at ha; rw [ha]; simp [dropS]
+  | err e => simp only [AgreeRun] at ha; rw [ha]; cases e <;> simp [dropS, excOfErr]
+  | esc x => simp [Out.isEsc] at hne
+
 end Props.OnSourceDec
